@@ -360,7 +360,8 @@ func (c *c08Checker) checkValidThrough(t *rapid.T, n *engcNode, what string, add
 	}
 }
 
-// entities enumerates everything that can be asked about (deterministic order).
+// entities enumerates everything that can be asked about (deterministic order). Resource questions are asked for the
+// addresses that ever held the resource plus two that never did.
 func (c *c08Checker) entities() []c08Entity {
 	w := c.w
 	m := w.Model
@@ -375,8 +376,20 @@ func (c *c08Checker) entities() []c08Entity {
 		if types[id] == basics.AppCreatable {
 			kind = "app"
 		}
+		strangers := 0
 		for _, a := range addrs {
-			out = append(out, c08Entity{kind: kind, addr: a, cidx: id, ctype: types[id]})
+			e := c08Entity{kind: kind, addr: a, cidx: id, ctype: types[id]}
+			ever := false
+			for r := basics.Round(0); r <= m.Latest() && !ever; r++ {
+				ever = e.nonEmptyAt(m.At(r))
+			}
+			if !ever {
+				if strangers >= 2 {
+					continue
+				}
+				strangers++
+			}
+			out = append(out, e)
 		}
 		out = append(out, c08Entity{kind: "creator", cidx: id, ctype: types[id]})
 		other := basics.AssetCreatable
@@ -575,7 +588,7 @@ func c08Run(tb *testing.T, t *rapid.T, vk *vkCtx, opts engcOpts) {
 			}
 		},
 		"": func(t *rapid.T) {
-			c.sample(t, 10)
+			c.sample(t, 8)
 			c.compareNodes(t, 6)
 		},
 	}
